@@ -36,8 +36,13 @@ impl Blob {
     pub fn new(seed: u64, len: usize) -> Blob {
         Blob { seed, len }
     }
+    /// seed 0 = all zero, seed 1 = all 0xFF, anything else = pseudo-random bytes
     pub fn bytes(&self) -> Vec<u8> {
-        Rng::new(self.seed ^ 0xB10B).bytes(self.len)
+        match self.seed {
+            0 => vec![0u8; self.len],
+            1 => vec![0xFFu8; self.len],
+            _ => Rng::new(self.seed ^ 0xB10B).bytes(self.len),
+        }
     }
     pub fn text(&self) -> String {
         format!("s{}x{}", self.seed, self.len)
@@ -67,12 +72,44 @@ impl Addr {
             Addr::Unix { .. } => 3,
         }
     }
+    /// Two 108-byte Unix paths derived from `seed`: raw random bytes, or realistic spellings
+    /// (filesystem paths, Linux abstract names with a leading NUL, HAProxy address prefixes
+    /// such as `unix@` / `abns@`, stale bytes after the terminator, paths that fill the field).
     pub fn unix_paths(seed: u64) -> ([u8; 108], [u8; 108]) {
-        let b = Blob::new(seed, 216).bytes();
-        let mut s = [0u8; 108];
-        let mut d = [0u8; 108];
-        s.copy_from_slice(&b[..108]);
-        d.copy_from_slice(&b[108..]);
+        let mut rng = Rng::new(seed ^ 0x0517);
+        let mut one = |rng: &mut Rng| -> [u8; 108] {
+            let mut p = [0u8; 108];
+            const DICT: [&[u8]; 14] = [
+                b"/var/run/haproxy.sock", b"/tmp/s", b"unix@/run/app.sock", b"abns@backend", b"unix@", b"abns@", b"\0abstract-name", b"./relative.sock",
+                b"unix:/run/x", b"fd@3", b"sockpair@4", b"ipv4@127.0.0.1", b"@", b"/",
+            ];
+            match rng.below(8) {
+                0 | 1 => rng.fill(&mut p),
+                2 | 3 | 4 => {
+                    let t = *rng.pick(&DICT);
+                    p[..t.len()].copy_from_slice(t);
+                    let extra = rng.below(20) as usize;
+                    for i in 0..extra {
+                        p[t.len() + i] = b'a' + (rng.next() % 26) as u8;
+                    }
+                    if rng.chance(1, 3) {
+                        // stale bytes after the terminator
+                        for b in p[t.len() + extra + 1..].iter_mut() {
+                            *b = rng.u8();
+                        }
+                    }
+                }
+                5 => p.iter_mut().for_each(|b| *b = b'a' + (rng.next() % 26) as u8),
+                6 => {}
+                _ => p.iter_mut().for_each(|b| *b = 0xFF),
+            }
+            p
+        };
+        let s = one(&mut rng);
+        let mut d = one(&mut rng);
+        if s == d && seed % 16 != 0 {
+            d[107] ^= 0x5A;
+        }
         (s, d)
     }
     /// Wire encoding: source address, destination address, source port, destination port,
@@ -169,6 +206,8 @@ pub enum Val {
     Addr(Addr),
     /// `TypeLengthValue::new(kind, value)`
     TlvStruct(u8, Blob),
+    /// `TypeLengthValue::new(kind, value).to_owned()` (value held in a `Cow::Owned`)
+    TlvOwned(u8, Blob),
     /// `(u8, &[u8])`
     TlvTuple(u8, Blob),
     /// `(Type, &[u8])`, index into TYPE_CODES
@@ -223,7 +262,7 @@ impl Val {
                 b.bytes()
             }
             Val::Addr(a) => a.encode(),
-            Val::TlvStruct(k, b) | Val::TlvTuple(k, b) => tlv(*k, &b.bytes())?,
+            Val::TlvStruct(k, b) | Val::TlvTuple(k, b) | Val::TlvOwned(k, b) => tlv(*k, &b.bytes())?,
             Val::TlvTupleType(t, b) => tlv(TYPE_CODES[*t].1, &b.bytes())?,
             Val::Section(b) | Val::SectionAdv(b, _) => b.bytes(),
             Val::Type(t) => vec![TYPE_CODES[*t].1],
@@ -247,6 +286,7 @@ impl Val {
             Val::Bytes(_) => "bytes",
             Val::Addr(_) => "addr",
             Val::TlvStruct(..) => "tlv",
+            Val::TlvOwned(..) => "tlv-owned",
             Val::TlvTuple(..) => "tuple",
             Val::TlvTupleType(..) => "tuplet",
             Val::Section(_) => "section",
@@ -272,6 +312,7 @@ impl Val {
             Val::Bytes(b) => format!("bytes,{}", b.text()),
             Val::Addr(a) => format!("addr,{}", a.text()),
             Val::TlvStruct(k, b) => format!("tlv,{},{}", k, b.text()),
+            Val::TlvOwned(k, b) => format!("tlvowned,{},{}", k, b.text()),
             Val::TlvTuple(k, b) => format!("tuple,{},{}", k, b.text()),
             Val::TlvTupleType(t, b) => format!("tuplet,{},{}", t, b.text()),
             Val::Section(b) => format!("section,{}", b.text()),
@@ -299,6 +340,7 @@ impl Val {
             "bytes" => Val::Bytes(Blob::parse(a)?),
             "addr" => Val::Addr(Addr::parse(a)?),
             "tlv" => Val::TlvStruct(a.parse().ok()?, Blob::parse(p.get(2)?)?),
+            "tlvowned" => Val::TlvOwned(a.parse().ok()?, Blob::parse(p.get(2)?)?),
             "tuple" => Val::TlvTuple(a.parse().ok()?, Blob::parse(p.get(2)?)?),
             "tuplet" => Val::TlvTupleType(a.parse().ok()?, Blob::parse(p.get(2)?)?),
             "section" => Val::Section(Blob::parse(a)?),
@@ -547,12 +589,17 @@ pub const SIZES: [usize; 24] = [
 ];
 
 fn small_size(rng: &mut Rng) -> usize {
-    *rng.pick(&[0usize, 1, 2, 3, 5, 12, 36, 255, 256])
+    *rng.pick(&[0usize, 1, 2, 3, 4, 4, 5, 8, 12, 16, 36, 255, 256])
 }
 
 pub fn rand_blob(rng: &mut Rng, big_ok: bool) -> Blob {
     let len = if big_ok && rng.chance(1, 6) { *rng.pick(&SIZES) } else { small_size(rng) };
-    Blob::new(rng.next() >> 16, len)
+    let seed = match rng.below(8) {
+        0 => 0,
+        1 => 1,
+        _ => (rng.next() >> 16) | 2,
+    };
+    Blob::new(seed, len)
 }
 
 pub fn rand_int(rng: &mut Rng) -> Val {
@@ -582,6 +629,15 @@ pub fn rand_int(rng: &mut Rng) -> Val {
     }
 }
 
+/// A TLV type byte: half of the time one of the registered codes.
+pub fn tlv_kind(rng: &mut Rng) -> u8 {
+    if rng.coin() {
+        TYPE_CODES[rng.below(12) as usize].1
+    } else {
+        rng.u8()
+    }
+}
+
 pub fn rand_val(rng: &mut Rng, big_ok: bool) -> Val {
     match rng.below(14) {
         0..=3 => rand_int(rng),
@@ -590,8 +646,15 @@ pub fn rand_val(rng: &mut Rng, big_ok: bool) -> Val {
             let f = rng.below(4) as u8;
             Val::Addr(Addr::random(rng, f))
         }
-        7 | 8 => Val::TlvStruct(rng.u8(), rand_blob(rng, big_ok)),
-        9 => Val::TlvTuple(rng.u8(), rand_blob(rng, big_ok)),
+        7 => Val::TlvStruct(tlv_kind(rng), rand_blob(rng, big_ok)),
+        8 => {
+            if rng.coin() {
+                Val::TlvStruct(tlv_kind(rng), rand_blob(rng, big_ok))
+            } else {
+                Val::TlvOwned(tlv_kind(rng), rand_blob(rng, big_ok))
+            }
+        }
+        9 => Val::TlvTuple(tlv_kind(rng), rand_blob(rng, big_ok)),
         10 => Val::TlvTupleType(rng.below(12) as usize, rand_blob(rng, big_ok)),
         11 => {
             let mut b = rand_blob(rng, big_ok);
@@ -625,7 +688,7 @@ pub fn rand_op(rng: &mut Rng, big_ok: bool) -> Op {
         0 | 1 => Op::Reserve(*rng.pick(&[0usize, 1, 5, 216, 65536, 1 << 20])),
         2 | 3 => Op::SetLength(if rng.chance(1, 3) { None } else { Some(*rng.pick(&[0u16, 1, 5, 12, 255, 256, 700, 65535])) }),
         4..=9 => Op::Write(rand_val(rng, big_ok)),
-        10 | 11 => Op::WriteTlv(rng.u8(), rand_blob(rng, big_ok)),
+        10 | 11 => Op::WriteTlv(tlv_kind(rng), rand_blob(rng, big_ok)),
         12 => Op::WriteTlvType(rng.below(12) as usize, rand_blob(rng, big_ok)),
         _ => {
             let n = rng.below(5);
@@ -648,7 +711,7 @@ pub fn rand_history(rng: &mut Rng) -> History {
     let n = rng.below(13);
     let mut ops: Vec<Op> = (0..n).map(|_| rand_op(rng, big)).collect();
     // forced set_length placements (C09): before the first write, between writes, last, repeated
-    match rng.below(8) {
+    match rng.below(9) {
         0 => ops.insert(0, Op::SetLength(Some(rng.u16()))),
         1 => ops.push(Op::SetLength(Some(rng.u16()))),
         2 => {
@@ -669,7 +732,54 @@ pub fn rand_history(rng: &mut Rng) -> History {
             let at = rng.below(ops.len() as u64 + 1) as usize;
             ops.insert(at, Op::SetLength(Some(rng.u16())));
         }
+        6 => {
+            // an explicit length that happens to equal (or nearly equal) the bytes written so far
+            let at = rng.below(ops.len() as u64 + 1) as usize;
+            let mut m = Model::new(&ctor);
+            let mut ok = true;
+            for op in &ops[..at] {
+                ok &= m.apply(op) != Step::MustFail;
+            }
+            if ok && m.payload_len() <= MAX_PAYLOAD {
+                let x = (m.payload_len() as i64 + rng.range(0, 2) as i64 - 1).clamp(0, 65535) as u16;
+                ops.insert(at, Op::SetLength(Some(x)));
+                ops.push(Op::Write(rand_int(rng)));
+            }
+        }
         _ => {}
+    }
+    if rng.chance(1, 12) {
+        // writes that add nothing (empty slice, empty batch, empty section) between set_length calls
+        let at = rng.below(ops.len() as u64 + 1) as usize;
+        let empty = match rng.below(3) {
+            0 => Op::Write(Val::Bytes(Blob::new(2, 0))),
+            1 => Op::Batch(vec![]),
+            _ => Op::Write(Val::Section(Blob::new(2, 0))),
+        };
+        ops.insert(at, empty);
+    }
+    History { ctor, ops }
+}
+
+/// A builder pushed beyond the size the writer accepts (explicit length in force, more than
+/// 65551 bytes in the buffer), followed by one small write of every kind: whatever the writer
+/// then does, it must not report success for bytes it did not append.
+pub fn overfull_history(rng: &mut Rng) -> History {
+    let ctor = rand_ctor(rng);
+    let mut ops = vec![Op::SetLength(Some(rng.u16()))];
+    let chunks = rng.range(2, 3);
+    for _ in 0..chunks {
+        ops.push(Op::Write(Val::Bytes(Blob::new((rng.next() >> 16) | 2, rng.range(30_000, 65_535) as usize))));
+    }
+    for _ in 0..rng.range(1, 4) {
+        ops.push(match rng.below(6) {
+            0 => Op::Write(Val::Type(rng.below(12) as usize)),
+            1 => Op::Batch(vec![Val::Type(rng.below(12) as usize), Val::U8(rng.u8())]),
+            2 => Op::Write(rand_int(rng)),
+            3 => Op::WriteTlv(tlv_kind(rng), rand_blob(rng, false)),
+            4 => Op::Write(Val::Bytes(rand_blob(rng, false))),
+            _ => Op::Write(Val::Addr(Addr::random(rng, 1))),
+        });
     }
     History { ctor, ops }
 }
@@ -721,7 +831,7 @@ pub fn chain_history(rng: &mut Rng) -> History {
     History { ctor, ops }
 }
 
-/// The 9-op alphabet of the exhaustive short histories.
+/// The 11-op alphabet of the exhaustive short histories.
 pub fn alphabet_op(i: u64) -> Op {
     match i {
         0 => Op::SetLength(Some(5)),
@@ -732,12 +842,16 @@ pub fn alphabet_op(i: u64) -> Op {
         5 => Op::WriteTlv(0x04, Blob::new(5, 3)),
         6 => Op::Reserve(100),
         7 => Op::Write(Val::Addr(Addr::V4 { src: [1, 2, 3, 4], dst: [5, 6, 7, 8], sp: 0x1234, dp: 0x5678 })),
-        _ => Op::Batch(vec![Val::U16(0xBEEF), Val::TlvTuple(0x30, Blob::new(8, 2))]),
+        8 => Op::Batch(vec![Val::U16(0xBEEF), Val::TlvTuple(0x30, Blob::new(8, 2))]),
+        9 => Op::Write(Val::Bytes(Blob::new(9, 0))),
+        _ => Op::Batch(vec![]),
     }
 }
 
+pub const ALPHABET: u64 = 11;
+
 pub fn short_history_count(max_len: u32) -> u64 {
-    2 * (0..=max_len).map(|k| 9u64.pow(k)).sum::<u64>()
+    2 * (0..=max_len).map(|k| ALPHABET.pow(k)).sum::<u64>()
 }
 
 pub fn short_history(idx: u64) -> History {
@@ -748,14 +862,14 @@ pub fn short_history(idx: u64) -> History {
     };
     let mut idx = idx / 2;
     let mut len = 0u32;
-    while idx >= 9u64.pow(len) {
-        idx -= 9u64.pow(len);
+    while idx >= ALPHABET.pow(len) {
+        idx -= ALPHABET.pow(len);
         len += 1;
     }
     let mut ops = Vec::new();
     for _ in 0..len {
-        ops.push(alphabet_op(idx % 9));
-        idx /= 9;
+        ops.push(alphabet_op(idx % ALPHABET));
+        idx /= ALPHABET;
     }
     History { ctor, ops }
 }
